@@ -1347,6 +1347,11 @@ func (s *c15Session) do(a c15Action) {
 				msg = msg[:300]
 			}
 			ev["err"] = msg
+			// go-git lists the packs once per opened repository: after the host's user ran `git gc`, a long-lived
+			// git-bug process no longer finds the objects that were repacked (recorded finding F15-stale-packs)
+			if s.kept != nil && s.tags["host-user:gc"] && (strings.Contains(msg, "packfile not found") || strings.Contains(msg, "object not found")) {
+				s.tags["stale-packs-after-external-gc"] = true
+			}
 		} else {
 			s.wrote = true
 		}
